@@ -869,3 +869,285 @@ package main
 //@   skip safety
 //@   unclaimed hashWithPackage/requires because the argument is a literal
 //@ end
+
+// ---- C01/C02: the link step ----
+// -X flags are duplicated under the obfuscated package path and variable name; the Go version,
+// build id, DWARF and symbol table are dropped.
+
+//@ ghost xHashed string
+//@ ghost xPath string
+//@ ghost idStripped bool
+//@ ghost cfgSet bool
+
+//@ hookset linkx
+//@ hook after (*mvdan.cc/garble.listedPackages).get(l, p) (lp, ok)
+//@   assert("x-flag-package-is-looked-up-by-the-path-before-the-last-dot", p == fullName[:strings.LastIndexByte(fullName, '.')])
+//@ hook before mvdan.cc/garble.hashWithPackage(pkg, n)
+//@   assert("x-flag-variable-is-hashed-with-the-package-it-names", pkg == lpkg && n == fullName[strings.LastIndexByte(fullName, '.')+1:])
+//@   assert("x-flag-main-is-the-package-being-linked", fullName[:strings.LastIndexByte(fullName, '.')] != "main" || pkg == tf.curPkg)
+//@   assert("x-flag-name-and-value-are-split-at-the-first-equals", val == fullName + "=" + stringValue && !strings.Contains(fullName, "="))
+//@ hook after mvdan.cc/garble.hashWithPackage(pkg, n) (r)
+//@   xHashed = r
+//@ hook before (*mvdan.cc/garble.listedPackage).obfuscatedImportPath(p)
+//@   assert("x-flag-path-is-the-obfuscated-path-of-the-package-it-names", p == lpkg)
+//@ hook after (*mvdan.cc/garble.listedPackage).obfuscatedImportPath(p) (r)
+//@   xPath = r
+//@ hook before fmt.Sprintf(format, a0, a1, a2)
+//@   assert("x-flag-is-duplicated-under-the-obfuscated-path-and-name", format == "-X=%s.%s=%s" && a0 == xPath && a1 == xHashed && a2 == stringValue)
+//@ hook before mvdan.cc/garble.flagSetValue(f, n, v)
+//@   if n == "-buildid" { assert("[C02] build-id-is-emptied", v == "") }
+//@   if n == "-buildid" { assert("[C02] go-version-is-overridden", exists k int :: 0 <= k && k < len(f) && f[k] == "-X=runtime.buildVersion=unknown") }
+//@   if n == "-buildid" { idStripped = true }
+//@   if n == "-importcfg" { assert("import-config-is-the-rewritten-one", v == newImportCfg) }
+//@   if n == "-importcfg" { assert("[C02] dwarf-and-symbol-table-are-dropped", exists k int :: 0 <= k && k+1 < len(f) && f[k] == "-w" && f[k+1] == "-s") }
+//@   if n == "-importcfg" { cfgSet = true }
+//@ end
+
+//@ func (*transformer).transformLink
+//@   property C01 C02
+//@   hooks linkx
+//@   requires tf != nil && tf.curPkg != nil && !idStripped && !cfgSet
+//@   skip safety
+//@   unclaimed hashWithPackage/requires because the variable name comes from the user's -X flag; cmd/link ignores a flag without a name and so may garble
+//@   unclaimed obfuscatedImportPath/requires because listed packages have non-empty import paths by construction of go list
+//@   ensures @build-id-and-import-config-are-always-rewritten: r1 == nil ==> idStripped && cfgSet
+//@ end
+
+// ---- C12: the runtime's magic number and entry-offset key follow the same inputs as the names ----
+
+//@ func runtimeHashWithCustomSalt
+//@   property C12 C03
+//@   spec hashstate.smt2
+//@   hooks hasher reflnames runtimepkg
+//@   requires sharedCache != nil
+//@   skip safety
+//@   assigns sumBuffer, listedPackages.entries, ghost wr, ghost lastGot, ghost lastGotOK
+//@   ensures @seeded-magic-depends-on-the-seed-only: len(flagSeed.bytes) > 0 ==> wr[hasher] == spec.HWriteS(spec.HWriteS(spec.HEmpty(), old(str(flagSeed.bytes))), old(str(salt)))
+//@   ensures @unseeded-magic-follows-the-runtime-action-id: len(flagSeed.bytes) == 0 ==> wr[hasher] == spec.HWriteS(spec.HWriteS(spec.HEmpty(), old(str(now(lastGot).GarbleActionID[:]))), old(str(salt)))
+//@ end
+
+//@ hookset runtimepkg
+//@ hook before (*mvdan.cc/garble.listedPackages).get(l, p)
+//@   assert("the-unseeded-salt-is-the-runtime-package", p == "runtime")
+//@ end
+
+//@ func (seedFlag).present
+//@   inline
+
+// ---- C02/C03: the temp dir never reaches the compiler's recorded paths ----
+
+//@ hookset trim
+//@ hook before mvdan.cc/garble.flagSetValue(f, n, v)
+//@   assert("temp-dir-is-trimmed-first", n == "-trimpath" && v == sharedTempDir + "=>;" + trimpath)
+//@ hook before mvdan.cc/garble.flagValue(f, n)
+//@   assert("existing-trimpath-is-kept", n == "-trimpath")
+//@ end
+
+//@ func flagValue
+//@   pure
+//@   trusted last value of a flag in either spelling; iterates flagValues (range-over-func)
+
+//@ func alterTrimpath
+//@   property C02 C03
+//@   hooks trim
+//@   skip safety
+//@ end
+
+// ---- C01/C02/C09/C14: one pass over a file: literals only where selected, every identifier through the naming decision ----
+
+//@ ghost litDone bool
+//@ ghost askedObj ref
+//@ ghost gotName string
+//@ ghost gotOK bool
+//@ ghost asked bool
+
+//@ hookset gofile
+//@ hook before mvdan.cc/garble/internal/literals.Obfuscate(r, f, info, lv, nf)
+//@   assert("[C09,C14,C05] literals-are-obfuscated-only-in-selected-packages-under-the-flag", flagLiterals && tf.curPkg.ToObfuscate)
+//@   assert("[C05,C09] linker-variables-are-handed-to-the-literal-pass", lv == tf.linkerVariableStrings)
+//@   assert("[C03] literals-draw-from-the-seeded-generator", r == tf.obfRand)
+//@   litDone = true
+//@ hook after (*mvdan.cc/garble.transformer).obfuscatedObjectName(t, o) (n, ok)
+//@   gotName = n
+//@   gotOK = ok
+//@   asked = true
+//@ end
+
+//@ func (*transformer).transformGoFile
+//@   property C01 C02 C09 C14 C05
+//@   hooks gofile
+//@   requires tf != nil && tf.curPkg != nil && !litDone
+//@   skip safety
+//@   ensures @selected-packages-get-their-literals-obfuscated: [C09] old(flagLiterals && tf.curPkg.ToObfuscate) ==> litDone
+//@ end
+
+//@ func (*transformer).transformGoFile#pre
+//@   property C01 C02
+//@   hooks gofile
+//@   requires tf != nil && tf.curPkg != nil && !asked
+//@   skip safety
+//@   unclaimed obfuscatedObjectName/requires because the transformer of a package being compiled always has its listed package
+//@   ensures @the-walk-visits-every-node: r0
+//@   ensures @blank-stays-blank: old(dyntypeis(cursor.Node(), *ast.Ident) && cursor.Node().(*ast.Ident).Name == "_") ==> cursor.Node().(*ast.Ident).Name == "_"
+//@   ensures @renamed-exactly-as-the-naming-decision-says: asked && dyntypeis(cursor.Node(), *ast.Ident) ==> cursor.Node().(*ast.Ident).Name == ite(gotOK, gotName, old(cursor.Node().(*ast.Ident).Name))
+//@   ensures @untouched-when-the-decision-is-not-asked: !asked && dyntypeis(cursor.Node(), *ast.Ident) ==> cursor.Node().(*ast.Ident).Name == old(cursor.Node().(*ast.Ident).Name)
+//@   ensures @every-identifier-with-an-object-is-asked: old(dyntypeis(cursor.Node(), *ast.Ident) && cursor.Node().(*ast.Ident).Name != "_" && !isnil(tf.info.ObjectOf(cursor.Node().(*ast.Ident))) && !(dyntypeis(tf.info.ObjectOf(cursor.Node().(*ast.Ident)), *types.Var) && tf.info.ObjectOf(cursor.Node().(*ast.Ident)).(*types.Var).Embedded())) ==> asked
+//@ end
+
+//@ ghost impListed *listedPackage
+//@ ghost impPath string
+
+//@ hookset goimports
+//@ hook before mvdan.cc/garble.listPackage(from, path)
+//@   assert("imports-are-resolved-from-the-package-being-built", from == tf.curPkg)
+//@ hook after mvdan.cc/garble.listPackage(from, path) (lp, err)
+//@   impListed = lp
+//@ hook before (*mvdan.cc/garble.listedPackage).obfuscatedImportPath(p)
+//@   assert("import-path-is-that-of-the-imported-package", p == impListed)
+//@ hook after (*mvdan.cc/garble.listedPackage).obfuscatedImportPath(p) (r)
+//@   impPath = r
+//@ end
+
+//@ func (*transformer).transformGoFile#post
+//@   property C01 C02
+//@   hooks goimports
+//@   requires tf != nil && tf.curPkg != nil
+//@   skip safety
+//@   may_panic when true
+//@   unclaimed obfuscatedImportPath/requires because listed packages have non-empty import paths by construction of go list
+//@   ensures @the-walk-visits-every-node: r0
+//@   ensures @import-path-is-rewritten-to-the-obfuscated-one: dyntypeis(cursor.Node(), *ast.ImportSpec) ==> cursor.Node().(*ast.ImportSpec).Path.Value == strconv.Quote(impPath)
+//@   ensures @unnamed-imports-keep-the-original-package-name: old(dyntypeis(cursor.Node(), *ast.ImportSpec) && cursor.Node().(*ast.ImportSpec).Name == nil) ==> cursor.Node().(*ast.ImportSpec).Name != nil && cursor.Node().(*ast.ImportSpec).Name.Name == impListed.Name
+//@   ensures @named-imports-keep-their-name: old(dyntypeis(cursor.Node(), *ast.ImportSpec) && cursor.Node().(*ast.ImportSpec).Name != nil) ==> cursor.Node().(*ast.ImportSpec).Name == old(cursor.Node().(*ast.ImportSpec).Name)
+//@ end
+
+// ---- C01/C02/C17: the import configuration handed to the compiler and linker ----
+// Rebuilt from importmap/packagefile lines only (so modinfo and friends are dropped), every path
+// replaced by what the package is called in this build, written to a fresh file in the owned temp dir.
+
+//@ ghost cfgListed *listedPackage
+//@ ghost cfgListedErr bool
+//@ ghost cfgPath string
+//@ ghost cfgHashed string
+
+//@ hookset importcfg
+//@ hook before os.CreateTemp(dir, pattern)
+//@   assert("[C17,C19] import-config-is-a-fresh-file-in-the-owned-temp-dir", dir == sharedTempDir)
+//@ hook before mvdan.cc/garble.listPackage(from, path)
+//@   assert("paths-are-resolved-from-the-package-being-built", from == tf.curPkg)
+//@ hook after mvdan.cc/garble.listPackage(from, path) (lp, err)
+//@   cfgListed = lp
+//@   cfgListedErr = err != nil
+//@ hook before mvdan.cc/garble.hashWithPackage(pkg, n)
+//@   assert("import-map-source-is-hashed-with-the-package-it-maps-to", pkg == cfgListed && pkg.ToObfuscate)
+//@ hook after mvdan.cc/garble.hashWithPackage(pkg, n) (r)
+//@   cfgHashed = r
+//@ hook before (*mvdan.cc/garble.listedPackage).obfuscatedImportPath(p)
+//@   assert("path-is-that-of-the-package-the-line-names", p == cfgListed && !cfgListedErr)
+//@ hook after (*mvdan.cc/garble.listedPackage).obfuscatedImportPath(p) (r)
+//@   cfgPath = r
+//@ hook before fmt.Fprintf(w, format, a0, a1)
+//@   assert("[C02] only-importmap-and-packagefile-lines-are-written", format == "importmap %s=%s\n" || format == "packagefile %s=%s\n")
+//@   assert("written-to-the-new-file", w == newCfg)
+//@   if format == "packagefile %s=%s\n" { assert("package-file-is-listed-under-the-name-the-build-gives-the-package", a0 == cfgPath && a1 == pair[1]) }
+//@   if format == "importmap %s=%s\n" { assert("import-map-of-a-selected-package-uses-the-obfuscated-names", cfgListed.ToObfuscate ==> a0 == cfgHashed && a1 == cfgPath) }
+//@   if format == "importmap %s=%s\n" { assert("import-map-of-a-plain-package-is-kept", !cfgListed.ToObfuscate ==> a0 == pair[0] && a1 == pair[1]) }
+//@ end
+
+//@ func (*transformer).processImportCfg
+//@   property C01 C02 C17
+//@   hooks importcfg
+//@   requires tf != nil && tf.curPkg != nil
+//@   skip safety
+//@   maxpaths 4000
+//@   unclaimed hashWithPackage/requires because import paths in an importcfg written by cmd/go are non-empty
+//@   unclaimed obfuscatedImportPath/requires because listed packages have non-empty import paths by construction of go list
+//@   results r0, r1
+//@   ensures @error-yields-no-file: r1 != nil ==> r0 == ""
+//@   loop 1
+//@     invariant tf.curPkg != nil
+//@   loop 2
+//@     invariant tf.curPkg != nil
+//@   loop 3
+//@     invariant tf.curPkg != nil
+//@   loop 4
+//@     invariant tf.curPkg != nil
+//@ end
+
+// ---- C01: //go:linkname and cgo directives name the obfuscated symbols ----
+
+//@ func (*transformer).directiveLocalName
+//@   property C01
+//@   spec chars.smt2 hashstate.smt2
+//@   hooks hasher
+//@   requires tf != nil && tf.curPkg != nil && localName != ""
+//@   skip safety
+//@   assigns sumBuffer, b64NameBuffer, ghost wr
+//@   ensures @plain-package-keeps-the-name: !tf.curPkg.ToObfuscate ==> r0 == localName
+//@   ensures @compiler-intrinsics-keep-the-name: compilerIntrinsics[tf.curPkg.ImportPath][localName] ==> r0 == localName
+//@   ensures @hashed-like-the-declaration: tf.curPkg.ToObfuscate && !compilerIntrinsics[tf.curPkg.ImportPath][localName] ==> r0 == old(hashWithPackage(tf.curPkg, localName))
+//@ end
+
+//@ ghost lnListed *listedPackage
+//@ ghost lnErr bool
+//@ ghost lnPath string
+//@ ghost lnObfPath string
+
+//@ ghost lnLocal string
+
+//@ hookset linkname
+//@ hook before (*mvdan.cc/garble.transformer).directiveLocalName(t, l)
+//@   assert("local-name-follows-the-declaration-in-this-package", t == tf && l == localName)
+//@ hook after (*mvdan.cc/garble.transformer).directiveLocalName(t, l) (r)
+//@   lnLocal = r
+//@ hook before mvdan.cc/garble.listPackage(from, path)
+//@   assert("foreign-package-is-looked-up-from-the-package-being-built", from == tf.curPkg)
+//@   assert("candidate-package-path-is-a-prefix-of-the-target", path == newName[:pkgSplit-1])
+//@ hook after mvdan.cc/garble.listPackage(from, path) (lp, err)
+//@   lnListed = lp
+//@   lnErr = err != nil
+//@   lnPath = path
+//@ hook before mvdan.cc/garble.hashWithPackage(pkg, n)
+//@   assert("foreign-names-are-hashed-with-the-package-that-declares-them", pkg == lnListed && !lnErr && pkg.ToObfuscate)
+//@   assert("compiler-intrinsics-are-never-renamed", !compilerIntrinsics[pkg.ImportPath][foreignName])
+//@   assert("exported-methods-are-never-renamed", !(n == name && n != receiver && token.IsExported(n)))
+//@ hook before (*mvdan.cc/garble.listedPackage).obfuscatedImportPath(p)
+//@   assert("target-path-is-the-obfuscated-path-of-the-declaring-package", p == lnListed)
+//@ hook after (*mvdan.cc/garble.listedPackage).obfuscatedImportPath(p) (r)
+//@   lnObfPath = r
+//@ end
+
+//@ func (*transformer).transformLinkname
+//@   property C01
+//@   hooks linkname
+//@   requires tf != nil && tf.curPkg != nil && localName != ""
+//@   skip safety
+//@   may_panic when true
+//@   unclaimed hashWithPackage/requires because a linkname target ending in a dot does not compile
+//@   unclaimed obfuscatedImportPath/requires because listed packages have non-empty import paths by construction of go list
+//@   unclaimed directiveLocalName/requires because go vet and the compiler reject a //go:linkname without a local name
+//@   ensures @local-name-follows-the-declaration: r0 == lnLocal
+//@   ensures @one-argument-form-stays-one-argument: old(newName) == "" ==> r1 == ""
+//@   ensures @names-without-a-package-are-kept: old(newName) != "" && strings.Count(old(newName), ".") < 1 ==> r1 == old(newName)
+//@   ensures @runtime-special-symbols-are-kept: old(newName) == "main.main" || old(newName) == "main..inittask" || old(newName) == "runtime..inittask" ==> r1 == old(newName)
+//@   ensures @rewritten-targets-start-with-the-obfuscated-package-path: r1 != old(newName) ==> lnListed != nil && lnListed.ToObfuscate && strings.HasPrefix(r1, lnObfPath + ".")
+//@ end
+
+//@ hookset directives
+//@ hook before (*mvdan.cc/garble.transformer).transformLinkname(t, l, n)
+//@   assert("linkname-arguments-are-the-directive-fields", l == fields[1] && n == ite(len(fields) == 3, fields[2], ""))
+//@   assert("runtime-module-data-hooks-are-refused", n != "runtime.lastmoduledatap" && n != "runtime.moduledataverify1")
+//@ hook before (*mvdan.cc/garble.transformer).directiveLocalName(t, l)
+//@   assert("cgo-import-names-of-this-package-follow-the-declaration", fields[1] == tf.curPkg.ImportPath + "." + l)
+//@ end
+
+//@ func (*transformer).transformDirectives
+//@   property C01
+//@   hooks directives
+//@   requires tf != nil && tf.curPkg != nil
+//@   skip safety
+//@   may_panic when true
+//@   unclaimed transformLinkname/requires because a //go:linkname without a local name does not compile
+//@   unclaimed directiveLocalName/requires because an empty cgo import name is not produced by cmd/cgo
+//@   unclaimed obfuscatedImportPath/requires because listed packages have non-empty import paths by construction of go list
+//@ end
